@@ -37,8 +37,13 @@ theorem bendingHinge_tr (fx : FX R) (p1 p2 p3 p4 n1 n2 t : V3 R) (a1 a2 kb1 kb2 
   simp only [bendingHinge, tr_sub]
 
 theorem volTerm_tr (a b c t : V3 R) :
-    volTerm (a + t) (b + t) (c + t) = volTerm a b c + V3.dot (V3.cross a b + V3.cross b c + V3.cross c a) t := by
-  simp only [volTerm_eq]; v3c; ring
+    volTerm 0 (a + t) (b + t) (c + t)
+      = volTerm 0 a b c + V3.dot (V3.cross a b + V3.cross b c + V3.cross c a) t := by
+  simp only [volTerm_zero]; v3c; ring
+
+/-- moving the three nodes AND the reference point together leaves the generated face term unchanged -/
+theorem volTerm_tr_all (o a b c t : V3 R) : volTerm (o + t) (a + t) (b + t) (c + t) = volTerm o a b c := by
+  simp only [volTerm_eq, tr_sub]
 
 theorem sum_map_add_scalar {α : Type} (L : List α) (u v : α → R) :
     (L.map (fun a => u a + v a)).sum = (L.map u).sum + (L.map v).sum := by
@@ -46,32 +51,83 @@ theorem sum_map_add_scalar {α : Type} (L : List α) (u v : α → R) :
   | nil => simp
   | cons a t ih => simp only [List.map_cons, List.sum_cons, ih]; ring
 
+/-- twice the vector area Σ_faces (p₁×p₂ + p₂×p₃ + p₃×p₁) of the surface -/
+def vecArea2 (x : Nat → V3 R) (F : List Face) : V3 R :=
+  (F.map (fun f => V3.cross (x f.a) (x f.b) + V3.cross (x f.b) (x f.c) + V3.cross (x f.c) (x f.a))).sum
+
+/-- the vector area of a closed surface vanishes, wherever its nodes are -/
+theorem vecArea2_closed (x : Nat → V3 R) (F : List Face) (hc : Closed F) : vecArea2 x F = 0 :=
+  closed_vsum_zero F hc (fun i j => V3.cross (x i) (x j)) (fun i j => by v3ext <;> ring)
+
+/-- EVERY surface: translating by `t` changes the un-centred sum by (vector area)·t -/
+theorem signedVol6_shift (x : Nat → V3 R) (F : List Face) (t : V3 R) :
+    signedVol6 (fun i => x i + t) F = signedVol6 x F + V3.dot (vecArea2 x F) t := by
+  unfold signedVol6 vecArea2
+  simp only [volTerm_tr]
+  rw [sum_map_add_scalar,
+    V3.sum_map_dot_right (v := fun f : Face => V3.cross (x f.a) (x f.b) + V3.cross (x f.b) (x f.c) + V3.cross (x f.c) (x f.a))]
+
 /-- the signed volume of a closed surface does not depend on where the surface is -/
 theorem signedVol6_tr (x : Nat → V3 R) (F : List Face) (hc : Closed F) (t : V3 R) :
     signedVol6 (fun i => x i + t) F = signedVol6 x F := by
-  unfold signedVol6
-  simp only [volTerm_tr]
-  rw [sum_map_add_scalar,
-    V3.sum_map_dot_right (v := fun f : Face => V3.cross (x f.a) (x f.b) + V3.cross (x f.b) (x f.c) + V3.cross (x f.c) (x f.a)),
-    closed_vsum_zero F hc (fun i j => V3.cross (x i) (x j)) (fun i j => by v3ext <;> ring), V3.dot_zero_left, add_zero]
+  rw [signedVol6_shift, vecArea2_closed x F hc, V3.dot_zero_left, add_zero]
+
+/-- EVERY surface: the sum `compute_volume` accumulates is the un-centred sum minus (reference point)·(vector area) -/
+theorem centredVol6_general (x : Nat → V3 R) (F : List Face) :
+    centredVol6 x F = signedVol6 x F - V3.dot (vecArea2 x F) (volRefPoint x F) := by
+  unfold centredVol6
+  have h : (fun i => x i - volRefPoint x F) = fun i => x i + (-(volRefPoint x F)) := by
+    funext i; exact sub_eq_add_neg _ _
+  rw [h, signedVol6_shift]
+  have : V3.dot (vecArea2 x F) (-(volRefPoint x F)) = - V3.dot (vecArea2 x F) (volRefPoint x F) := by v3c; ring
+  rw [this]; ring
+
+/-- closed surfaces: the centred sum is the un-centred one, whatever the reference node is -/
+theorem centredVol6_closed (x : Nat → V3 R) (F : List Face) (hc : Closed F) : centredVol6 x F = signedVol6 x F := by
+  rw [centredVol6_general, vecArea2_closed x F hc, V3.dot_zero_left, sub_zero]
+
+theorem volRefPoint_tr (x : Nat → V3 R) (f : Face) (F : List Face) (t : V3 R) :
+    volRefPoint (fun i => x i + t) (f :: F) = volRefPoint x (f :: F) + t := by
+  rw [volRefPoint_cons, volRefPoint_cons]
+
+/-- EVERY surface, closed or not: the volume `compute_volume` returns does not depend on where the surface is
+    (the reference node moves along) -/
+theorem cellVol6_tr (x : Nat → V3 R) (F : List Face) (t : V3 R) : cellVol6 (fun i => x i + t) F = cellVol6 x F := by
+  cases F with
+  | nil => rfl
+  | cons f F =>
+    unfold cellVol6 cellVol6At volOrigin
+    rw [volRefPoint_tr]
+    simp only [volTerm_tr_all]
+
+theorem cellVolume_tr (x : Nat → V3 R) (F : List Face) (t : V3 R) :
+    cellVolume (fun i => x i + t) F = cellVolume x F := by
+  unfold cellVolume; rw [cellVol6_tr]
 
 theorem faceGeom_tr (fx : FX R) (x : Nat → V3 R) (t : V3 R) (f : Face) :
     faceGeom fx (fun i => x i + t) f = faceGeom fx x f := by
   simp only [faceGeom, faceNormalArea_tr]
 
-theorem prelude_tr (fx : FX R) (x : Nat → V3 R) (F : List Face) (p : Params R) (hc : Closed F) (t : V3 R) :
+/-- EVERY face list (closed or not): the scalars of the cell do not depend on where it is -/
+theorem prelude_tr_exact (fx : FX R) (x : Nat → V3 R) (F : List Face) (p : Params R) (t : V3 R) :
     prelude fx (fun i => x i + t) F p = prelude fx x F p := by
-  have hv : cellVolume (fun i => x i + t) F = cellVolume x F := by
-    unfold cellVolume; rw [cellVol6_eq, cellVol6_eq, signedVol6_tr x F hc t]
+  have hv : cellVolume (fun i => x i + t) F = cellVolume x F := cellVolume_tr x F t
   have ha : cellArea fx (fun i => x i + t) F = cellArea fx x F := by
     unfold cellArea; simp only [faceGeom_tr]
   simp only [prelude, hv, ha]
 
+theorem prelude_tr (fx : FX R) (x : Nat → V3 R) (F : List Face) (p : Params R) (hc : Closed F) (t : V3 R) :
+    prelude fx (fun i => x i + t) F p = prelude fx x F p := prelude_tr_exact fx x F p t
+
+/-- translating the cell leaves every force unchanged — EVERY face list, closed or not -/
+theorem internalContribs_tr_exact (fx : FX R) (x : Nat → V3 R) (F : List Face) (p : Params R) (t : V3 R) :
+    internalContribs fx (fun i => x i + t) F p = internalContribs fx x F p := by
+  simp only [internalContribs, prelude_tr_exact fx x F p t, pressureContribs, tensionContribs, bendingContribs,
+    bendingContribsOf, angleContribs, faceGeom_tr, tensionFace_tr, angleFace_tr, bendingHinge_tr]
+
 /-- translating the cell leaves every force unchanged -/
 theorem internalContribs_tr (fx : FX R) (x : Nat → V3 R) (F : List Face) (p : Params R) (hc : Closed F) (t : V3 R) :
-    internalContribs fx (fun i => x i + t) F p = internalContribs fx x F p := by
-  simp only [internalContribs, prelude_tr fx x F p hc t, pressureContribs, tensionContribs, bendingContribs,
-    bendingContribsOf, angleContribs, faceGeom_tr, tensionFace_tr, angleFace_tr, bendingHinge_tr]
+    internalContribs fx (fun i => x i + t) F p = internalContribs fx x F p := internalContribs_tr_exact fx x F p t
 
 
 /-! ### rotation -/
@@ -179,8 +235,17 @@ theorem bendingHinge_rot (hM : Rot M) (fx : FX R) (p1 p2 p3 p4 n1 n2 : V3 R) (a1
     V3.normSq, rotateAroundAxis_rot hM, hM.map_add, V3.zero_eq]
   split_ifs <;> first | rfl | rw [map4_zero hM]
 
-theorem volTerm_rot (hM : Rot M) (a b c : V3 R) : volTerm (M a) (M b) (M c) = volTerm a b c := by
-  simp only [volTerm_eq, hM.cross_map, hM.dot_map]
+theorem volTerm_rot (hM : Rot M) (o a b c : V3 R) : volTerm (M o) (M a) (M b) (M c) = volTerm o a b c := by
+  simp only [volTerm_eq, hM.map_sub, hM.cross_map, hM.dot_map]
+
+/-- EVERY surface: the volume follows rotations (the reference node is rotated along) -/
+theorem cellVol6_rot (hM : Rot M) (x : Nat → V3 R) (F : List Face) : cellVol6 (fun i => M (x i)) F = cellVol6 x F := by
+  cases F with
+  | nil => rfl
+  | cons f F =>
+    unfold cellVol6 cellVol6At volOrigin
+    rw [volRefPoint_cons, volRefPoint_cons]
+    simp only [volTerm_rot hM]
 
 theorem faceGeom_rot (hM : Rot M) (fx : FX R) (x : Nat → V3 R) (f : Face) :
     faceGeom fx (fun i => M (x i)) f = (M (faceGeom fx x f).1, (faceGeom fx x f).2) := by
@@ -189,7 +254,7 @@ theorem faceGeom_rot (hM : Rot M) (fx : FX R) (x : Nat → V3 R) (f : Face) :
 theorem prelude_rot (hM : Rot M) (fx : FX R) (x : Nat → V3 R) (F : List Face) (p : Params R) :
     prelude fx (fun i => M (x i)) F p = prelude fx x F p := by
   have hv : cellVolume (fun i => M (x i)) F = cellVolume x F := by
-    unfold cellVolume cellVol6; simp only [volTerm_rot hM]
+    unfold cellVolume; rw [cellVol6_rot hM]
   have ha : cellArea fx (fun i => M (x i)) F = cellArea fx x F := by
     unfold cellArea; simp only [faceGeom_rot hM]
   simp only [prelude, hv, ha]
